@@ -270,6 +270,8 @@ def targets(tier):
 	cf = lambda reg: (register(reg), fileio.register_calc_file(reg))
 	cf.specns = {'sig': specns.sig_opaque}     # caller level: sig is an arbitrary predicate here (its definition is used by C01 and by the lemmas)
 	t.append((CA + 'calc_file_signature', None, None, cf))
+	for m in ('close', '__exit__', '__enter__'):
+		t.append((IO + 'ClosingIterator.' + m, None, None, lambda reg: (register(reg), fileio.register_closing(reg))))
 	for comp in (None, 'none', 'gzip', 'auto'):
 		regfn = (lambda c: (lambda reg: (register(reg), fileio.register_seqfile(reg, c))))(comp)
 		t.append((SQ + 'SequenceFile.open', str(comp), {'self': fileio.SeqFileT(comp), 'mode': Const('rt'), 'kwargs': {}}, regfn))
